@@ -34,6 +34,10 @@ def regenerate(res):
     covered = set(re.findall(r'"(\w+)"', m.group(1))) if m else set()
     for t in types_:
         if t not in covered: hints.append("schema type %s declares modifier methods and is not in the harness table" % t)
+    drops = re.findall(r'^  \("([\w-]+)", "([\w:]+)", "([\w,]*)"\)', new[new.find("def cfgDrops"):], re.M) if "def cfgDrops" in new else []
+    for row, opn, fields in drops:
+        hints.append("%s: %s() returns a schema without the receiver's %s" % (row, opn.split(":")[0], fields))
+    res.coverage["config_drops_in_table"] = len(drops)
     res.coverage["schema_types_in_package"] = len(types_)
     res.coverage["schema_types_in_harness_table"] = len(covered)
     res.coverage["parsecontext_sites"] = len(sites)
@@ -56,11 +60,20 @@ THEOREMS = ["Gozod.C03." + t for t in [
     "step_ctx", "step_eq_parseBase", "runSeq_ctx", "runSeq_results", "c03_ctx_history", "c03_ctx_history_discriminates",
     "specStep_parseBase", "c03_ctx_seq_partial", "c03_ctx_seq_witness",
     "c03_ctx_fields_as_modelled", "c03_ctx_never_written", "c03_ctx_state_read_only_for_messages", "c03_pmc_structure_as_transcribed",
-    "c03_harness_covers_every_schema_type"]]
+    "c03_harness_covers_every_schema_type",
+    "applyAllC_i", "applyAllC_cfg", "processModifiers_nonNil", "ctxStepX_nonNil", "c03_nonnil_frame", "c03_nonnil_frame_plain",
+    "c03_frame_nil_side", "c03_nonnil_frame_witness_record", "c03_nonnil_frame_witness_struct",
+    "c03_cfg_drops_as_modelled", "c03_cfg_table_covers_modifiers"]]
 
 # harness table entries that run the same Parse function as another entry: one class name for one defect
 # (ZodLazyTyped.Parse is `return z.ZodLazy.Parse(input, ctx...)`, types/lazy.go)
 SAME_PARSE = {"lazyany": "lazy"}
+
+def type_of_row(row):
+    """constructor-variant rows (record-enum, struct-partial, object-strict, …) are the same schema type, hence the same
+    Parse and the same modifier methods, as the plain row: one class name for one defect"""
+    row = SAME_PARSE.get(row, row)
+    return row.split("-")[0]
 
 def cls(s):
     s = s.strip()
@@ -85,7 +98,7 @@ def seq_key(op, impl, M, S):
     body = C.op_body(op)
     kind = body.split(" ")[1]
     segs = body.split(" / ")[1:]
-    tys = [SAME_PARSE.get(t, t) for t in C.op_comment(op).split(" ")[0].split(",")]
+    tys = [type_of_row(t) for t in C.op_comment(op).split(" ")[0].split(",")]
     if " ctx=" not in impl: return "ctx:%s-unreadable-observation" % kind
     isteps, ictx = impl.rsplit(" ctx=", 1)
     if "!fresh" in isteps: return "ctx:outcome-depends-on-context-history"
@@ -117,11 +130,19 @@ def seq_key(op, impl, M, S):
 def key(op, impl, M, S):
     body = C.op_body(op).split(" ")
     if body[1] in ("cseq", "csib"): return seq_key(op, impl, M, S)
-    ty = C.op_comment(op).split(" ")[0]
-    ty = SAME_PARSE.get(ty, ty)
-    ops = {"nil": body[5:], "val": body[2:], "wnil": body[6:], "wval": body[4:]}.get(body[1], body[2:])
+    ty = type_of_row(C.op_comment(op).split(" ")[0])
+    ops = {"nil": body[5:], "val": body[6:], "cfg": body[3:], "wnil": body[6:], "wval": body[4:]}.get(body[1], body[2:])
     if impl.startswith("panic"): return "%s:panic" % ty
+    if body[1] == "cfg":
+        # a modifier method returned a schema without (part of) the receiver's type-local configuration
+        drop = [o for o in ops if o == "NonOptional"]
+        return "%s:%s-drops-config" % (ty, "nonoptional" if drop and impl == M else "modifier")
     if body[1] == "val":
+        if impl.startswith("table:"): return "table:%s:%s" % (C.op_comment(op).split(" ")[0], impl.split(" ")[0][6:])
+        # model = impl = diff: the deviation the model of today's code predicts (a dropping method in the history and an
+        # input whose verdict depends on the configuration)
+        if impl == M and impl.startswith("diff") and "NonOptional" in ops:
+            return "%s:nonoptional-drops-config" % ty
         return "%s:nonnil-input-%s" % (ty, impl.split(" ")[0].replace(":", "-"))
     if body[1] == "wval":
         # same class names as the bare lines: does the modified schema differ from the base in verdict / value / callbacks
